@@ -188,6 +188,10 @@ def build_env(case, tables=None):
         steps_delay=case["steps_delay"], max_long=case["max_long"], max_short=case["max_short"],
         margin=case["margin"], cash=100.0, latency=0,
     )
+    # optional reward / cost parameters (absent from a case = the constructor's defaults)
+    for key in ("reward_clipping", "risk_aversion", "fee", "fixed", "markup"):
+        if key in case:
+            kwargs[key] = case[key]
     return TradingEnvXY(**kwargs)
 
 
